@@ -300,6 +300,15 @@ def _job(idx: int) -> List[Dict[str, Any]]:
             inst("R7.A", "ASSUMED", "tie exchange (V~)", "exempt as in the statement: up to the draw-margin term 2*kappa/c^2 per tied pair", {})
     elif family == "plackett-luce":
         _plackett_luce(prog, roles, p0, per_rel, omega_tags, ti, head_i, inst, I)
+        # ---- R7.7f the normaliser and the tie count evaluated on every weak ordering of 2 and 3 ranks (osv/rules/sumq.py)
+        from .sumq import helper_instances
+
+        for n_ in (2, 3):
+            for h, desc, verdict, msg in helper_instances(prog, roles, n_):
+                fi_ = roles.model.lookup(h)
+                inst("R7.7f", verdict, f"{h} on the ordering {desc}", msg + (" — the stage probabilities exp(mu_i/c)/sum_q[q] do not sum to 1 over the teams they are applied to (or the tie split is wrong): mu is created or destroyed"
+                                                                     if verdict == "VIOLATED" else ""),
+                     {}, fi_.module.name if fi_ else mod, fi_.qualname if fi_ else entry, fi_.node.lineno if fi_ else line)
     else:
         inst("R7.A", "UNDECIDED", "kernel family", "the pair term has none of the recognised shapes (logistic expectation, Gaussian correction, softmax)")
     return out
